@@ -352,6 +352,14 @@ func (loc *Location) AddRule(ctx *Context, id string, rule Map) (string, error) 
 		return "", err
 	}
 
+	// Canonicalise the expiration first: a Rule wants a number,
+	// and 'expires' can be given as a string (RFC3339), too.
+	expiring, expires, err := setExpires(ctx, rule)
+	if err != nil {
+		Log(UERR, ctx, "Location.AddRule", "location", loc.Name, "uerr", err, "rule", rule, "ruleId", id)
+		return "", err
+	}
+
 	// Validate the rule
 	if _, err = RuleFromMap(ctx, rule); err != nil {
 		Log(UERR, ctx, "Location.AddRule", "location", loc.Name, "uerr", err, "rule", rule, "ruleId", id)
@@ -359,12 +367,6 @@ func (loc *Location) AddRule(ctx *Context, id string, rule Map) (string, error) 
 	}
 
 	Inc(&loc.stats.AddRules, 1)
-
-	expiring, expires, err := setExpires(ctx, rule)
-	if err != nil {
-		Log(UERR, ctx, "Location.AddRule", "location", loc.Name, "uerr", err, "rule", rule, "ruleId", id)
-		return "", err
-	}
 
 	wrapper := make(map[string]interface{})
 	wrapper["rule"] = map[string]interface{}(rule)
